@@ -126,6 +126,9 @@ def run(ctx):
     missing = [t for t in need if not cover.get(t)]
     if missing:
         raise MachineryError("vacuous: family shapes never generated: %s" % missing)
+    for io in ("input", "output"):      # prefix x alias type x nested level must be combined
+        if not any(p["pv"]["depth"] >= 2 and p["pv"]["xpre"] == io and p["pv"]["xtype"] in ("aR", "aI", "aB", "aaR") for p in progs):
+            raise MachineryError("vacuous: no nested %s variable of alias type in the family" % io)
     # as-built configuration: TLC must find the violated invariant, and its predictions must match the code
     violated = {}
     for k, w in enumerate(ASBUILT_WITNESSES):
